@@ -41,9 +41,9 @@ type C14UDPScenario struct {
 	// upstream sends one empty datagram on it (legal UDP, not carriable by a
 	// Cloak frame): whatever the relay makes of it, nothing malformed may reach
 	// the wire (C10: no zero-length record)
-	EmptyTail bool `json:"empty_tail,omitempty"`
-	Partial bool           `json:"partial"`
-	Seed    uint64         `json:"seed"`
+	EmptyTail bool   `json:"empty_tail,omitempty"`
+	Partial   bool   `json:"partial"`
+	Seed      uint64 `json:"seed"`
 }
 
 const udpHdr = 14
